@@ -83,6 +83,8 @@ package factory
 
 //@ func (*defaultFactory).createComponent
 //@ property C01 C02 C03 C05 C09
+// A-CALLBACK: what a post-processor hands back in place of a component is itself a component object (not a reflect.Value / reflect.Type)
+//@ assume before call CreateProxy: [substitute-is-a-component] PlainComponent(instantiation)
 //@ requires [inv] FInv(f)
 //@ requires [marked-with-hole] Reg(f).IC[name] && Reg(f).HasHole && Reg(f).Hole == name
 //@ assigns RegFrame(Reg(f)), CreationFrame()
@@ -194,13 +196,14 @@ package factory
 
 //@ func (*defaultFactory).genProxyComponent
 //@ property C03
-//@ requires [named] name != "" && newComponent != nil
+//@ requires [named] name != "" && PlainComponent(newComponent)
 //@ assigns RTop
 //@ ensures [rtop-monotone] RTop >= old(RTop)
 //@ ensures [proxy-built] result1 == nil && MetaOK(result0) && fresh(result0) && result0.Raw == newComponent && result0.ProxyMeta == origin && len(result0.Dependent) == 0
 
 //@ func (*defaultFactory).getEarlyBeanReference
 //@ property C03 C01
+//@ assume before call genProxyComponent: [substitute-is-a-component] PlainComponent(exposedComponent)
 //@ requires [wired] FWired(f) && ProcsOK(f.postProcessorRegistrationDelegate) && name != ""
 //@ requires [meta-built] MetaOK(m)
 //@ assigns RTop, Failed
@@ -251,6 +254,7 @@ package factory
 
 //@ func (*defaultFactory).doCreateComponent
 //@ property C01 C02 C03 C05 C09
+//@ assume before call genProxyComponent: [substitute-is-a-component] PlainComponent(wrappedInstance)
 //@ requires [inv] FInv(f)
 //@ requires [marked-with-hole] Reg(f).IC[name] && Reg(f).HasHole && Reg(f).Hole == name
 //@ requires [fresh-attempt] St[name] == 0 && MetaOK(meta) && name != ""
